@@ -14,7 +14,11 @@ import (
 // alphabets
 // ---------------------------------------------------------------------------------------------
 
-var c04Strings = []string{"", "a", "123", "1b", "1.5", "true", "a b", `a"b`, `a'b`, `a\b`, "[", "é"}
+// every combination of the characters the writer's quoting decision and the parser's escape
+// handling care about: more double than single quotes (=> single-quoted output) with and without
+// a backslash, the reverse, ties, a trailing backslash
+var c04Strings = []string{"", "a", "123", "1b", "1.5", "true", "a b", `a"b`, `a'b`, `a\b`, "[", "é",
+	`q"\z`, `"\`, `\"`, `'"\"`, `'\`, `"'`}
 
 func f32s(fs ...float32) []uint32 {
 	out := make([]uint32, len(fs))
@@ -85,7 +89,7 @@ func alphaLayout() *refnbt.Alphabet {
 		Longs:    []int64{-4},
 		Floats:   f32s(1.5),
 		Doubles:  f64s(0.1, 1e20),
-		Strings:  []string{"a", "", "1b", `a"b`, `a'\b`},
+		Strings:  []string{"a", "", "1b", `a"b`, `a'\b`, `q"\z`},
 		Keys:     []string{"a", "", "a b"},
 		ArrLens:  []int{0, 2},
 		ArrVals:  []int64{1, -1},
